@@ -19,6 +19,7 @@ import sys
 from fractions import Fraction
 
 import z3
+import numpy as _np
 
 from .poly import P, normal
 from . import pyxfront
@@ -953,6 +954,14 @@ class Interp(object):
                 if getattr(cur, 'maybe_held', False):
                     new.maybe_held = True
             self.path.log.append(('mutate', cur.oid, s.lineno, bool(getattr(cur, 'maybe_held', False))))
+        elif isinstance(cur, _np.ndarray) and cur.dtype == object and isinstance(t, ast.Name):
+            # numpy in-place operator on an array object: the SAME array is updated (every alias sees it) when the result fits
+            res = self.binop(s.op, cur, rhs, s, fr)
+            if isinstance(res, _np.ndarray) and res.shape == cur.shape:
+                cur[...] = res
+                new = cur
+            else:
+                new = res
         elif isinstance(cur, list) and isinstance(s.op, ast.Add) and isinstance(rhs, (list, tuple)):
             # list.__iadd__ extends the SAME object (visible through every alias: another name, an attribute, a default argument)
             cur.extend(rhs)
@@ -1233,6 +1242,20 @@ class Interp(object):
                 return getattr(o, name)
             if name == 'dot':
                 return lambda other: other.sym_rdot(self, o) if hasattr(other, 'sym_rdot') else o.dot(other)
+            if name in ('any', 'all'):
+                # truth of the entries: decided entry by entry on the current path (a symbolic entry splits the path)
+                def anyall(axis=None, _o=o, _name=name):
+                    if axis is not None:
+                        raise CheckerError('ndarray.%s(axis=...) is not modelled' % _name)
+                    for x in _o.reshape(-1):
+                        x = _unwrap0(x)
+                        t = self.truth(compare('!=', x, 0)) if isinstance(x, P) else bool(x)
+                        if _name == 'any' and t:
+                            return True
+                        if _name == 'all' and not t:
+                            return False
+                    return _name == 'all'
+                return anyall
             if name in ('ravel', 'copy', 'reshape', 'flatten', 'astype', 'sum', 'transpose', 'min', 'max', 'dot', 'tolist'):
                 fn = getattr(o, name)
                 if name == 'astype':
